@@ -42,6 +42,11 @@ struct opcase {
   int niret;
   mzp_t *P, *Q;
   void *aux; /* op private */
+  /* two read-only operands taken as differently shaped views anchored at the SAME cell of ONE parent (e.g. M[0:m,0:l] and M[0:l,0:n]):
+   * shared_union holds the value of the covering block, shared_slot the two slots; host owns the parent */
+  rm_t *shared_union;
+  int shared_slot[2];
+  opnd_t *host;
   char pcls[96]; /* parameter / regime class (part of violation key, and of distinctness class) */
   char desc[256];
   int ran;
